@@ -778,6 +778,10 @@ def shard(seed, idx, n, tier):
     from harness import cliequiv
     for _ in range(max(2, n)):
         cliequiv.equiv_case(rng, res, "record")       # in-toto-record start / stop vs the library calls they stand for
+    from harness import clicall                       # ... and which library call each makes, argument by argument
+    for _ in range(max(4, 2 * n)):
+        clicall.one_case(rng, res, "record_start")
+        clicall.one_case(rng, res, "record_stop")
     return res
 
 
